@@ -1,6 +1,7 @@
-SPECIFICATION Spec
+INIT MCInit
+NEXT Next
 CONSTANTS
- Mols <- MCMols
+ Mols = {}
  Dev = "none"
  FixedOrder = TRUE
 INVARIANT WriterMeetsWrite
